@@ -13,6 +13,8 @@ bounded-exhaustive (every sequence of length <= 3 over the operation pool) + ran
 from __future__ import annotations
 
 import itertools
+import copy
+from decimal import Decimal
 import json
 import random
 import sys
@@ -110,12 +112,21 @@ def install_hooks(ctx):
 
     def match_namespace(self, qname):
         r = orig_match(self, qname)
+        try:  # the same question put to a copy of the var that has no memo yet
+            fresh = copy.copy(self)
+            fresh.namespace_matches = None
+        except Exception:  # noqa: BLE001  (memo attribute renamed: hook not evaluated -> inconclusive)
+            return r
+        r2 = orig_match(fresh, qname)
         _ctx.hook("XmlVar.match_namespace:memo-equals-recompute")
-        if r != self._match_namespace(qname):
-            _hook_violations.append(("namespace-match-memo-stale", f"{self.name}.match_namespace({qname!r}) memo {r} != recomputed {self._match_namespace(qname)}"))
+        if r != r2:
+            _hook_violations.append(("namespace-match-memo-stale", f"{self.name}.match_namespace({qname!r}) memo {r} != recomputed {r2}"))
         return r
 
     XV.match_namespace = match_namespace
+    from vf import sched
+
+    sched.WRAPPED_ORIGINALS += [orig_build, orig_find, orig_match]
 
 
 def meta_equal(a, b):
@@ -168,6 +179,10 @@ DOCS = {
     "wild-2": f'<w:wild xmlns:w="{W}" xmlns:g="urn:vf:c14:g"><g:a><g:b/>t</g:a><g:c g:k="1"/></w:wild>',
     "wild-own-ns": f'<w:wild xmlns:w="{W}"><w:a/></w:wild>',
     "wild-item": f'<w:wild xmlns:w="{W}" xmlns:i="{I}"><i:item id="10"/></w:wild>',
+    "item-xsi-root": f'<w:item xmlns:w="{I}" xmlns:xsi="{XSI}" xsi:type="w:itemExt" id="11"><w:extra>3</w:extra></w:item>',
+    "item-xsi-root-g": f'<g:item xmlns:g="{I}" xmlns:xsi="{XSI}" xsi:type="g:itemExt" id="12"/>',
+    "mix": f'<i:mix xmlns:i="{I}" xmlns:o="urn:vf:c14:o"><i:first>x</i:first><i:a>7</i:a><i:b>s</i:b><i:price currency="USD">1.50</i:price><o:z/><i:last>9</i:last></i:mix>',
+    "price": f'<i:price xmlns:i="{I}" currency="EUR">2.25</i:price>',
     "nums": "<nums><a>1</a><b>2.5</b><t>1 2 3</t></nums>",
     "nums-bad": "<nums><a>x</a></nums>",
     "nums-missing": "<nums><b>1.0</b></nums>",
@@ -192,10 +207,12 @@ def objects():
         "wild": M.Wild(attrs={"k": "v", "{urn:vf:c14:f}k": "w"}),
         "nums": M.Nums(a=1, b=float("inf"), t=[1, 2]),
         "not-a-model": object(),
+        "mix": M.Mix(first="x", choice=[7, "s", 8], price=M.Price(value=Decimal("1.50"), currency="USD"), last=9),
+        "price": M.Price(value=Decimal("2.25"), currency="EUR"),
     }
 
 
-CLASSES = {"Item": M.Item, "ItemExt": M.ItemExt, "Box": M.Box, "Wild": M.Wild, "Nums": M.Nums, None: None}
+CLASSES = {"Item": M.Item, "ItemExt": M.ItemExt, "Box": M.Box, "Wild": M.Wild, "Nums": M.Nums, "Mix": M.Mix, "Price": M.Price, None: None}
 OPS = []
 for _doc, _cls in [("item", "Item"), ("item", None), ("item-default-ns", "Item"), ("itemext", "ItemExt"), ("itemext", "Item"), ("itemext", None), ("box-plain", "Box"), ("box-xsi", "Box"),
                    ("box-xsi-list", "Box"), ("box-xsi-list", None), ("box-unknown-xsi", "Box"), ("box-unknown-prop", "Box"), ("wild-1", "Wild"), ("wild-2", "Wild"), ("wild-own-ns", "Wild"),
@@ -203,11 +220,15 @@ for _doc, _cls in [("item", "Item"), ("item", None), ("item-default-ns", "Item")
     OPS.append(("parse", _doc, _cls, "lxml" if len(OPS) % 2 else "native", len(OPS) % 3 == 0))
 for _o in ["item", "itemext", "box-derived", "box-empty", "wild", "nums", "not-a-model"]:
     OPS.append(("serialize", _o, "lxml" if len(OPS) % 2 else "native", len(OPS) % 2 == 0))
+# reused parser whose earlier document bound the same prefix to another namespace (w -> NS_W in wild-*, g -> urn:vf:c14:g in wild-2)
+OPS += [("parse", "item-xsi-root", "Item", "native", False), ("parse", "item-xsi-root", "Item", "lxml", False), ("parse", "item-xsi-root-g", "Item", "native", True),
+        ("parse", "mix", "Mix", "native", False), ("parse", "price", None, "lxml", False),
+        ("serialize", "mix", "native", False), ("serialize", "mix", "lxml", False), ("serialize", "price", "native", False), ("encode", "mix", False)]
 for _j, _cls in [("box", "Box"), ("item", "Item"), ("item", None), ("nums", "Nums"), ("nums-unknown-key", "Nums"), ("nums-bad", "Nums"), ("nums", "Box")]:
     OPS.append(("decode", _j, _cls, len(OPS) % 2 == 0))
 for _o in ["box-derived", "nums", "item"]:
     OPS.append(("encode", _o, len(OPS) % 2 == 0))
-LATE_OPS = [("load-late",), ("parse-late",), ("decode-late",)]
+LATE_OPS = [("load-late",), ("parse-late",), ("decode-late",), ("parse-twin",)]
 
 
 def normalise_exc(e):
@@ -252,6 +273,9 @@ def run_op(inst: Instances, op, objs, late_state):
                 doc = f'<l:late{n} xmlns:l="urn:vf:c14:late"><l:x>1</l:x></l:late{n}>'
                 res = inst.parsers["native"].from_string(doc)
                 out = ("ok", (type(res).__name__, res.x), None)
+            elif kind == "parse-twin":
+                res = inst.parsers["lxml"].from_string('<l:twin xmlns:l="urn:vf:c14:late"/>')
+                out = ("ok", (type(res).__name__, res.gen), None)
             elif kind == "decode-late":
                 n = late_state["n"]
                 res = inst.decoder.decode({"x": 1, f"only_late{n}": "s"})
@@ -302,7 +326,7 @@ def run_sequence(ctx, seq, label):
                 load_late(late_state)
                 ctx.feature("op:load-late-module")
                 continue
-            if op[0] in ("parse-late", "decode-late") and late_state["n"] is None:
+            if op[0] in ("parse-late", "decode-late", "parse-twin") and late_state["n"] is None:
                 continue
             ctx.feature(f"op:{op[0]}")
             got = run_op(shared, op, objs, late_state)
@@ -369,6 +393,12 @@ def run_shard(ctx):
             if n == 3 and ctx.quick() and (i // ctx.nshards + ctx.seed) % 8 != 0:
                 continue
             run_sequence(ctx, list(seq), f"exhaustive-{n}")
+    # modules loaded mid-sequence: every sequence over the late operations up to length 5
+    for n in (2, 3, 4, 5):
+        for seq in itertools.product(LATE_OPS, repeat=n):
+            i += 1
+            if ctx.mine(i) and seq[0] == ("load-late",) and seq.count(("load-late",)) >= (1 if n < 4 else 2):
+                run_sequence(ctx, list(seq), f"late-{n}")
     n_random = ctx.per_shard(ctx.pick(300, 8000))
     for _ in range(n_random):
         if ctx.time_left() < 0 and len(ctx.fingerprints) > MIN_DISTINCT[ctx.tier] // ctx.nshards:
